@@ -52,8 +52,10 @@ let eval fn args : string option =
         match file_data im (z_of_hex i) with
         | Some (a, d) -> "ok " ^ hex_of_bytes a ^ " " ^ hex_of_bytes d
         | None -> "none") (new_image (bytes_of_hex img)))
-  | "writeback", [img] ->
-    Some (obs_outcome (fun im -> "ok " ^ hex_of_bytes (write_file im)) (new_image (bytes_of_hex img)))
+  | "writeback", [img; old] ->
+    (* old = "none": the destination does not exist; otherwise its previous content *)
+    let o = if old = "none" then None else Some (bytes_of_hex old) in
+    Some (obs_outcome (fun im -> "ok " ^ hex_of_bytes (write_file o im)) (new_image (bytes_of_hex img)))
   | "spec", _ ->
     let (a, _) = parse_arch args in
     Some ("ok " ^ (if wf_archive a then "wf" else "not-wf") ^ " " ^ hex_of_bytes (embed a) ^ " "
